@@ -168,7 +168,7 @@ pub fn cone_event(rng: &mut Rng, depth: u8, dd: u8, lon: f64, lat: f64, r: f64, 
   let mut ev = base;
   let m = ev.as_object_mut().unwrap();
   let refcells = crate::refcmp::cone_cells(depth, dd, lon, lat, r);
-  if res.is_none() { m.insert("sar".into(), json!(refcells.is_none() as u8)); }
+  if res.is_none() { m.insert("sar".into(), json!(refcells.is_none() as u8)); m.insert("sar_miss".into(), json!(refcells.is_none() as u8)); m.insert("sar_full".into(), json!(refcells.is_none() as u8)); }
   match res {
     None => { m.insert("p".into(), json!(1)); m.insert("dmax".into(), json!(0)); m.insert("cells".into(), json!([])); m.insert("wit".into(), json!([]));
               m.insert("full_excess".into(), json!(0)); m.insert("slack".into(), json!(0)); m.insert("rtol".into(), json!(0)); m.insert("pen".into(), json!(0));
@@ -218,18 +218,26 @@ pub fn cone_event(rng: &mut Rng, depth: u8, dd: u8, lon: f64, lat: f64, r: f64, 
       m.insert("full_excess".into(), json!(if r >= PI { -1 } else { e15(full_excess) }));
       m.insert("slack".into(), json!(if r >= PI { -1 } else { e15(slack) }));
       // attribution to open findings: not worse than the reference copy of the crate on the three metric clauses
+      // (per clause: a finding about misses must not stop being recognised because the changed tree returns MORE cells than the
+      // reference - that is tightness, judged by its own clause - and conversely)
+      let mut nw_miss = true;
+      let mut nw_full = true;
       let nw = match &refcells {
         None => true,
         Some(rc) => {
           let miss_nw = wit.iter().all(|w| covered(w) || !crate::refcmp::covers(rc, w));
+          nw_miss = miss_nw;
           let mut fx_ref: f64 = -1.0;
           for c in rc.iter().filter(|c| c.f).take(if large { 100_000 } else { 150 }) { for (l, b) in cell_border_points(c, if large { 3 } else { 7 }) { fx_ref = fx_ref.max(ang_dist(l, b, lon, lat) - r); } }
           let mut sl_ref: f64 = -1.0;
           for c in rc.iter() { let (l, b) = cell_centre(c); sl_ref = sl_ref.max(ang_dist(l, b, lon, lat) - (r + 2.0 * dmax(c.p.len() as u8))); }
-          miss_nw && full_excess <= fx_ref.max(1e-12 + 1e-9 * r) + 1e-15 && slack <= sl_ref.max(0.0) + 1e-15
+          nw_full = full_excess <= fx_ref.max(1e-12 + 1e-9 * r) + 1e-15;
+          miss_nw && nw_full && slack <= sl_ref.max(0.0) + 1e-15
         }
       };
       m.insert("sar".into(), json!(nw as u8));
+      m.insert("sar_miss".into(), json!(nw_miss as u8));
+      m.insert("sar_full".into(), json!(nw_full as u8));
       m.insert("rtol".into(), json!((r * 1e6).round() as i64)); // 1e-9 * r in units of 1e-15
     }
   }
@@ -554,6 +562,12 @@ pub fn ellipse_event(rng: &mut Rng, depth: u8, dd: u8, lon: f64, lat: f64, a: f6
     (Some(cs), Some(rc)) => wit.iter().all(|w| crate::refcmp::covers(cs, w) || !crate::refcmp::covers(rc, w)) && worst_slack(cs, lon, lat, a) <= worst_slack(rc, lon, lat, a).max(0),
   };
   m.insert("sar".into(), json!(nw as u8));
+  let nw_miss = match (&cells, &refcells) {
+    (None, r) => r.is_none(),
+    (Some(_), None) => true,
+    (Some(cs), Some(rc)) => wit.iter().all(|w| crate::refcmp::covers(cs, w) || !crate::refcmp::covers(rc, w)),
+  };
+  m.insert("sar_miss".into(), json!(nw_miss as u8));
   // attribution only (see cone_event): centre in a polar cap, penetration of the uncovered witness cells
   let mut pen: f64 = 0.0;
   if let Some(cs) = &cells {
